@@ -23,7 +23,8 @@ def explicit(tier, seed):
             for rep in range(2 if tier == "quick" else 6):
                 body = [{"k": "step", "val": 0}, {"k": "uthreads", "threads": T, "n": N, "op": op}, {"k": "step", "val": "after"}]
                 if rep % 2:
-                    body = [{"k": "child", "body": body}]
+                    # the threads issue the very FIRST operations of a fresh context (nothing has warmed its counter up)
+                    body = [{"k": "child", "body": body[1:]}]
                 yield {"label": "user-threads-share-context", "prog": {"body": body}, "prog_seed": 8900 + i, "pattern": {"p": "plain"}, "max_inv": 1,
                        "opts": {"perturb": {"p": 0.05, "seed": seed * 131 + i, "files": ["context.py", "threading.py"]}} if rep >= 1 else {}}
                 i += 1
